@@ -406,16 +406,30 @@ def insertion(ctx):
 def neighborlist(ctx):
     b = ctx.fn(NLP, 'NeighborList.build')
     loc = NLP + '::NeighborList'
-    st = {norm(s.targets[0]): norm(s.value) for s in ast.walk(b) if isinstance(s, ast.Assign)}
-    ctx.ob('NEIGHBORLIST', loc + '.build', 'coord is column 0 and neighbors are columns 1.. of the table', st.get('self.__coord') == 'self.__nlist[:, 0]' and st.get('self.__neighbors') == 'self.__nlist[:, 1:]', str(st), node=b)
-    c = [x for x in calls_in(b) if norm(x.func) == 'nlist']
-    ok = len(c) == 1 and [norm(a) for a in c[0].args] == ['system', 'cutoff'] and norm(kwarg(c[0], 'initialsize')) == 'initialsize' and norm(kwarg(c[0], 'deltasize')) == 'deltasize'
-    ctx.ob('NEIGHBORLIST', loc + '.build', 'storage-size parameters are forwarded to the builder', ok, node=b)
-    gi = ctx.fn(NLP, 'NeighborList.__getitem__')
-    r = [s for s in ast.walk(gi) if isinstance(s, ast.Return)]
-    ctx.ob('NEIGHBORLIST', loc + '.__getitem__', 'an atom\'s list is the first coord[key] entries of its row', len(r) == 1 and norm(r[0].value).replace(' ', '') in ('self.__neighbors[key,:self.coord[key]]', 'self.__neighbors[key,:self.__coord[key]]'), node=gi)
-    ln = ctx.fn(NLP, 'NeighborList.__len__')
-    ctx.ob('NEIGHBORLIST', loc + '.__len__', 'length is the number of atoms', 'len(self.__coord)' in norm(ln), node=ln)
+    # build(): interpreted with a recording builder that hands back a model table; the views are read through the public accessors
+    import numpy as np
+    cls0 = ctx.fn(NLP, 'NeighborList')
+    I0 = sp.Integer
+    tab0 = np.array([[I0(v) for v in row] for row in [[2, 1, 12, -7], [0, -7, -7, -7], [3, 0, 2, 11]]], dtype=object)
+    seen = []
+    obj0 = SymObj(cls0, {}, 'self')
+    ev0 = SymEval(module_aliases(ctx.mod(NLP)))
+    ev0.globals = {'nlist': lambda system, cutoff, **kw: (seen.append((system, cutoff, kw)), tab0)[1]}
+    try:
+        ev0.run_fn(b, [obj0, 'SYSTEM', sp.Rational(7, 2)], {'initialsize': I0(5), 'deltasize': I0(3)})
+        okb = seen == [('SYSTEM', sp.Rational(7, 2), {'initialsize': 5, 'deltasize': 3})]
+        coord = ev0.getattr(obj0, 'coord', None, Path({}))
+        n_ = ev0.call_fn(ctx.fn(NLP, 'NeighborList.__len__'), [obj0], {}, Path({}))
+        rows = [[int(v) for v in ev0.call_fn(ctx.fn(NLP, 'NeighborList.__getitem__'), [obj0, I0(i)], {}, Path({}))] for i in range(3)]
+        last = [int(v) for v in ev0.call_fn(ctx.fn(NLP, 'NeighborList.__getitem__'), [obj0, I0(-1)], {}, Path({}))]
+        okv = [int(v) for v in coord] == [2, 0, 3] and int(n_) == 3 and rows == [[1, 12], [], [0, 2, 11]] and last == [0, 2, 11]
+        det0 = 'coord %s, len %s, lists %s' % ([int(v) for v in coord], n_, rows)
+    except (Opaque, WouldRaise, TypeError, ValueError) as e:
+        okb = okv = False
+        det0 = str(e)
+    ctx.ob('NEIGHBORLIST', loc + '.build', 'the system, the cutoff and the storage-size parameters are forwarded to the builder', bool(okb), str(seen), node=b)
+    ctx.ob('NEIGHBORLIST', loc + '.__getitem__', 'after build(): coord is column 0 of the table, an atom\'s list is the next coord entries of its row (negative indices count from the end), the length is the number of atoms', bool(okv), det0,
+           node=ctx.fn(NLP, 'NeighborList.__getitem__'), key='views')
     # dump and load: the writer's text is parsed by the analyser, and fed back to the reader
     import numpy as np
     d = ctx.fn(NLP, 'NeighborList.dump')
@@ -471,8 +485,9 @@ def neighborlist(ctx):
         ev.np_override = {'numpy.empty': lambda shape, **k: _unspec2(shape)}
         try:
             ev.run_fn(ld, [obj2, 'nlist.dat'], {})
-            co, nb = obj2.attrs.get('_NeighborList__coord'), obj2.attrs.get('_NeighborList__neighbors')
-            got = [[int(co[i])] + [int(v) for v in nb[i, :int(co[i])]] for i in range(len(co))] if co is not None and nb is not None else None
+            evr = SymEval(module_aliases(ctx.mod(NLP)))
+            co = evr.getattr(obj2, 'coord', None, Path({}))
+            got = [[int(co[i])] + [int(v) for v in evr.call_fn(ctx.fn(NLP, 'NeighborList.__getitem__'), [obj2, sp.Integer(i)], {}, Path({}))] for i in range(len(co))] if co is not None else None
             okl = got == [[row[0]] + [int(v) for v in row[1:1 + row[0]]] for row in table]
             det = str(got)
         except (Opaque, WouldRaise, TypeError, ValueError, IndexError) as e:
